@@ -18,6 +18,21 @@ DEFAULT_RULE = ("cases come from harness/src/gen.rs (one SplitMix64 stream seede
                 "(at least one database/shell/sleep event, or a failure verdict)")
 
 PROPS = {
+    "C01": {
+        "runs": [{"profile": "c01", "n_quick": 20000, "n_thorough": 500000}],
+        "observable": "verdict, failure kind and the reported actual/err payload of Runner::run_multi on a one-record script",
+        "explanation": "random: every expectation form x answer family (exact / whitespace-relaid / value changed / line removed, added, swapped / wrong kind / wrong types) x file-level sort, result mode, threshold, strict|default column check",
+    },
+    "C02": {
+        "runs": [{"profile": "c02", "n_quick": 6000, "n_thorough": 120000}],
+        "observable": "ordered trace of (session, sql) / command / sleep events, result, failing line, kind and payload",
+        "explanation": "random scripts of 1..12 records of all kinds, mostly passing, first failing record and halt at random positions, failing connections, local variables set while substitution is off",
+    },
+    "C12": {
+        "runs": [{"profile": "c12", "n_quick": 6000, "n_thorough": 120000}],
+        "observable": "MakeConnection invocations in order, session id per call (the mock answers every query with [session id, earlier calls on that session]), per-session order, multiset of sessions shut down",
+        "explanation": "random scripts over connection names {default,a,A,b,c1} incl. repeated connection lines, interleaved with comments / system / guards / failing records, failing connection attempts",
+    },
     "C09": {
         "runs": [{"profile": "c09", "n_quick": 300, "n_thorough": 20000, "exhaustive": True, "oracle": "c09"}],
         "observable": "verdict + failing line + ordered trace of (session, sql) / command / sleep events",
